@@ -685,6 +685,25 @@ def mkIncs (views : Nat → Option FileView) : List Include → Res (List IncInf
 def usedFlags (n : Nat) (marks : List Nat) : List Bool :=
   (List.range n).map (fun k => decide (k ∈ marks))
 
+/-- The resolver's view of its own AST and includes. -/
+def mkEnv (n2cL : N2C) (incs : List IncInfo) : Env := ⟨fun n => lookupB n n2cL, incs⟩
+
+/-- The AST being resolved as getEnum sees it once the typedefs' types are resolved. -/
+def mkCur (env : Env) (tdTypes : List TypeRes) (f : File) : FileView := mkView env.n2c tdTypes f
+
+def mkCE (views : Nat → Option FileView) (gfuel i : Nat) (env : Env) (cur : FileView) : CEnv :=
+  ⟨env, fun j => if j = i then some cur else views j, i, gfuel⟩
+
+def mkLE (views : Nat → Option FileView) (incs : List IncInfo) (cur : FileView) : LoopEnv :=
+  { localRoot := fun a => (cur.typedef a).map (·.cat)
+    incRoot := fun k name =>
+      match incs[k]? with
+      | none => none
+      | some inc =>
+        match views inc.target with
+        | none => none
+        | some v => (v.typedef name).map (·.cat) }
+
 /-- resolver.ResolveAST after its include loop: file `i` = `f`, every other AST through `views`.
 `gfuel` bounds getEnum's recursion. -/
 def resolveAST (views : Nat → Option FileView) (gfuel : Nat) (i : Nat) (f : File) : Res RFile :=
@@ -694,39 +713,29 @@ def resolveAST (views : Nat → Option FileView) (gfuel : Nat) (i : Nat) (f : Fi
     match registerNames f with
     | .error e => .error e
     | .ok n2cL =>
-      let env : Env := ⟨fun n => lookupB n n2cL, incs⟩
-      match flatOut (mapOut (resolveTypedefDef env) f.typedefs) with
+      match flatOut (mapOut (resolveTypedefDef (mkEnv n2cL incs)) f.typedefs) with
       | .error e => .error e
       | .ok tds =>
-        let cur : FileView := mkView env.n2c tds.val.types f
-        let ce : CEnv := ⟨env, fun j => if j = i then some cur else views j, i, gfuel⟩
-        match flatOut (mapOut (resolveConstantDef ce) f.constants) with
+        match flatOut (mapOut (resolveConstantDef
+            (mkCE views gfuel i (mkEnv n2cL incs) (mkCur (mkEnv n2cL incs) tds.val.types f))) f.constants) with
         | .error e => .error e
         | .ok cs =>
-          match flatOut (mapOut (resolveStructLikeDef ce) f.structLikes) with
+          match flatOut (mapOut (resolveStructLikeDef
+              (mkCE views gfuel i (mkEnv n2cL incs) (mkCur (mkEnv n2cL incs) tds.val.types f))) f.structLikes) with
           | .error e => .error e
           | .ok ss =>
-            match flatOut (mapOut (resolveServiceDef env) f.services) with
+            match flatOut (mapOut (resolveServiceDef (mkEnv n2cL incs)) f.services) with
             | .error e => .error e
             | .ok svs =>
-              let le : LoopEnv :=
-                { localRoot := fun a => (cur.typedef a).map (·.cat)
-                  incRoot := fun k name =>
-                    match incs[k]? with
-                    | none => none
-                    | some inc =>
-                      match views inc.target with
-                      | none => none
-                      | some v => (v.typedef name).map (·.cat) }
-              let all := ((tds.val.append cs.val).append ss.val).append svs.val
-              match resolveTypedefs le (tds.work ++ cs.work ++ ss.work ++ svs.work) with
+              match resolveTypedefs (mkLE views incs (mkCur (mkEnv n2cL incs) tds.val.types f))
+                  (tds.work ++ cs.work ++ ss.work ++ svs.work) with
               | .error e => .error e
               | .ok st =>
                 .ok { n2c := n2cL
                       used := usedFlags f.includes.length (tds.used ++ cs.used ++ ss.used ++ svs.used)
-                      types := patchTypes st all.types
-                      binds := all.binds
-                      svcRefs := all.svc }
+                      types := patchTypes st (((tds.val.append cs.val).append ss.val).append svs.val).types
+                      binds := (((tds.val.append cs.val).append ss.val).append svs.val).binds
+                      svcRefs := (((tds.val.append cs.val).append ss.val).append svs.val).svc }
 
 /-! ### ResolveSymbols: the recursion over includes -/
 
